@@ -25,6 +25,7 @@ type workerResult struct {
 	killed   bool
 	from     int
 	firstuse int
+	family   string
 	raceLogs []string
 }
 
